@@ -98,7 +98,9 @@ func vfsuCallMsg(xid, prog, vers, proc uint32, sys bool, args []byte) []byte {
 }
 
 // frame: 1 = one fragment, one write; 2 = two fragments; 3 = one fragment, header and body in
-// separate TCP segments. 0 = no record marking at all (raw probe).
+// separate TCP segments; 4 = one fragment, body split across two segments; 5 = two fragments
+// dribbled in 5-byte segments. 0 = no record marking at all (raw probe).
+// (TCP_NODELAY is on by default in Go, so every Write is a segment; the pauses keep them apart.)
 func (c *vfsuClient) send(msg []byte, frame int) error {
 	c.conn.SetWriteDeadline(time.Now().Add(10 * time.Second))
 	hdr := func(last bool, n int) []byte {
@@ -126,6 +128,31 @@ func (c *vfsuClient) send(msg []byte, frame int) error {
 		time.Sleep(15 * time.Millisecond)
 		_, err := c.conn.Write(msg)
 		return err
+	case 4: // one fragment whose body reaches the server in two TCP segments
+		k := len(msg) / 2
+		if _, err := c.conn.Write(append(hdr(true, len(msg)), msg[:k]...)); err != nil {
+			return err
+		}
+		time.Sleep(20 * time.Millisecond)
+		_, err := c.conn.Write(msg[k:])
+		return err
+	case 5: // two fragments, the whole byte stream dribbled in 5-byte segments (headers split too)
+		k := (len(msg) / 8) * 4
+		out := append(hdr(false, k), msg[:k]...)
+		out = append(out, hdr(true, len(msg)-k)...)
+		out = append(out, msg[k:]...)
+		for len(out) > 0 {
+			n := 5
+			if n > len(out) {
+				n = len(out)
+			}
+			if _, err := c.conn.Write(out[:n]); err != nil {
+				return err
+			}
+			out = out[n:]
+			time.Sleep(2 * time.Millisecond)
+		}
+		return nil
 	default:
 		_, err := c.conn.Write(append(hdr(true, len(msg)), msg...))
 		return err
@@ -496,8 +523,9 @@ func TestVF_Startup(t *testing.T) {
 			continue
 		}
 		var hist []M
+		frame := sc.Frame
 		emitCall := func(k int, proc string, xid uint32, outcome string, r vfsuReply) {
-			m := M{"ev": "call", "k": k, "proc": proc, "frag": sc.Frame, "xidc": sc.Xidc, "sys": sc.Sys, "outcome": outcome, "r": r}
+			m := M{"ev": "call", "k": k, "proc": proc, "frag": frame, "xidc": sc.Xidc, "sys": sc.Sys, "outcome": outcome, "r": r}
 			tr.Emit(m)
 			hist = append(hist, M{"proc": proc, "outcome": outcome, "astat": r.AStat, "status": r.Status})
 		}
@@ -507,50 +535,56 @@ func TestVF_Startup(t *testing.T) {
 		po, pr, _ := probe.call(0x7fffffff, NFS_PROGRAM, NFS_V3, 0, "NULL", false, nil, 0)
 		probe.drop()
 		tr.Emit(M{"ev": "rawprobe", "outcome": po, "r": pr})
-		// 2. the conformant session
-		nfsAddr := st.addr
-		if sc.Path == "SWP" && st.pmap != "" {
-			pc := &vfsuClient{addr: st.pmap, wait: 20 * time.Second}
-			args := make([]byte, 0, 16)
-			for _, v := range []uint32{NFS_PROGRAM, NFS_V3, 6, 0} {
-				args = binary.BigEndian.AppendUint32(args, v)
+		// 2. the conformant session: once with the scenario's framing, once more with a framing in
+		// which a fragment reaches the server in several TCP segments (every path meets both)
+		session := func() {
+			nfsAddr := st.addr
+			if sc.Path == "SWP" && st.pmap != "" {
+				pc := &vfsuClient{addr: st.pmap, wait: 20 * time.Second}
+				args := make([]byte, 0, 16)
+				for _, v := range []uint32{NFS_PROGRAM, NFS_V3, 6, 0} {
+					args = binary.BigEndian.AppendUint32(args, v)
+				}
+				xid := vfsuXid(sc.Xidc, 9)
+				o, r, _ := pc.call(xid, 100000, 2, 3, "PMAP_GETPORT", false, args, frame)
+				pc.drop()
+				emitCall(0, "PMAP_GETPORT", xid, o, r)
+				if o == "reply" && r.Port > 0 {
+					nfsAddr = fmt.Sprintf("127.0.0.1:%d", r.Port)
+				}
 			}
-			xid := vfsuXid(sc.Xidc, 9)
-			o, r, _ := pc.call(xid, 100000, 2, 3, "PMAP_GETPORT", false, args, sc.Frame)
-			pc.drop()
-			emitCall(0, "PMAP_GETPORT", xid, o, r)
-			if o == "reply" && r.Port > 0 {
-				nfsAddr = fmt.Sprintf("127.0.0.1:%d", r.Port)
+			wait := 20 * time.Second // generous: the machine may be loaded; failing paths fail at once (connection closed)
+			if sc.Xidc == "zero" && !st.rm {
+				wait = 1200 * time.Millisecond // a raw decoder swallows the shifted header and then blocks
 			}
+			cl := &vfsuClient{addr: nfsAddr, wait: wait}
+			xid := vfsuXid(sc.Xidc, 1)
+			o, r, _ := cl.call(xid, NFS_PROGRAM, NFS_V3, 0, "NULL", false, nil, frame) // NULL goes out with AUTH_NONE
+			emitCall(1, "NULL", xid, o, r)
+			xid = vfsuXid(sc.Xidc, 2)
+			margs := []byte{0, 0, 0, 1, '/', 0, 0, 0}
+			o, r, fh := cl.call(xid, MOUNT_PROGRAM, MOUNT_V3, 1, "MNT", sc.Sys, margs, frame)
+			emitCall(2, "MNT", xid, o, r)
+			xid = vfsuXid(sc.Xidc, 3)
+			if fh == nil {
+				emitCall(3, "GETATTR", xid, "nohandle", vfsuNoReply())
+			} else {
+				gargs := binary.BigEndian.AppendUint32(nil, uint32(len(fh)))
+				gargs = append(gargs, fh...)
+				for len(gargs)%4 != 0 {
+					gargs = append(gargs, 0)
+				}
+				o, r, _ = cl.call(xid, NFS_PROGRAM, NFS_V3, 1, "GETATTR", sc.Sys, gargs, frame)
+				emitCall(3, "GETATTR", xid, o, r)
+				if o == "reply" && r.Status == 0 {
+					nontrivial++
+				}
+			}
+			cl.drop()
 		}
-		wait := 20 * time.Second // generous: the machine may be loaded; failing paths fail at once (connection closed)
-		if sc.Xidc == "zero" && !st.rm {
-			wait = 1200 * time.Millisecond // a raw decoder swallows the shifted header and then blocks
-		}
-		cl := &vfsuClient{addr: nfsAddr, wait: wait}
-		xid := vfsuXid(sc.Xidc, 1)
-		o, r, _ := cl.call(xid, NFS_PROGRAM, NFS_V3, 0, "NULL", false, nil, sc.Frame) // NULL goes out with AUTH_NONE
-		emitCall(1, "NULL", xid, o, r)
-		xid = vfsuXid(sc.Xidc, 2)
-		margs := []byte{0, 0, 0, 1, '/', 0, 0, 0}
-		o, r, fh := cl.call(xid, MOUNT_PROGRAM, MOUNT_V3, 1, "MNT", sc.Sys, margs, sc.Frame)
-		emitCall(2, "MNT", xid, o, r)
-		xid = vfsuXid(sc.Xidc, 3)
-		if fh == nil {
-			emitCall(3, "GETATTR", xid, "nohandle", vfsuNoReply())
-		} else {
-			gargs := binary.BigEndian.AppendUint32(nil, uint32(len(fh)))
-			gargs = append(gargs, fh...)
-			for len(gargs)%4 != 0 {
-				gargs = append(gargs, 0)
-			}
-			o, r, _ = cl.call(xid, NFS_PROGRAM, NFS_V3, 1, "GETATTR", sc.Sys, gargs, sc.Frame)
-			emitCall(3, "GETATTR", xid, o, r)
-			if o == "reply" && r.Status == 0 {
-				nontrivial++
-			}
-		}
-		cl.drop()
+		session()
+		frame = 4 + hno%2
+		session()
 		t1 := time.Now()
 		st.stop()
 		if os.Getenv("VF_SU_TIMING") != "" {
